@@ -201,12 +201,14 @@ def hygiene():
 # OCaml model driver
 
 def extract_roots():
-    """coq/Extract/roots/*.txt: lines 'Require <Module>' and 'Root <ident> ...'"""
-    reqs, roots = [], []
+    """coq/Extract/roots/<engine>.txt: lines 'Require <Module>' and 'Root <ident> ...'.
+    Returns {engine: (requires, roots)}"""
+    out = {}
     d = os.path.join(COQ, "Extract", "roots")
     for f in sorted(os.listdir(d)):
         if not f.endswith(".txt"):
             continue
+        reqs, roots = [], []
         for line in open(os.path.join(d, f)):
             t = line.split()
             if not t:
@@ -215,36 +217,58 @@ def extract_roots():
                 reqs += [x for x in t[1:] if x not in reqs]
             elif t[0] == "Root":
                 roots += [x for x in t[1:] if x not in roots]
-    return reqs, roots
+        out[f[:-4]] = (reqs, roots)
+    return out
 
 
 def build_model():
-    """Extract.v is assembled from coq/Extract/roots/*.txt; the OCaml driver is driver.ml plus
-    every ocaml/eng_*.ml (one per engine, each registers itself in Driver.engines)"""
+    """One extraction per engine: coq/Extract/roots/<e>.txt -> Extract_<e>.v -> ocaml/model_<e>.ml
+    (ExtrOcamlBasic only).  ocaml/eng_<e>.ml is compiled as
+        module Model = Model_<e>  +  conv.inc  +  eng_<e>.ml
+    so that the models of different engines cannot clash.  An engine whose model or glue does not
+    compile is left out with a warning: only its own scripts are affected."""
     with Lock("ocaml"):
-        reqs, roots = extract_roots()
-        text = ("(* GENERATED by tools/driver.py from coq/Extract/roots/*.txt.\n"
-                "   Extraction of the executable models to OCaml (one file, model.ml).  ExtrOcamlBasic only:\n"
-                "   bool, option, unit, list, prod, sumbool, sumor are mapped to their OCaml namesakes;\n"
-                "   numbers stay Coq positive/N/Z/nat. *)\n"
-                "Require Extraction.\nRequire Import ExtrOcamlBasic.\n"
-                + "".join("From Dnp3V Require Import %s.\n" % r for r in reqs)
-                + "Extraction Language OCaml.\n"
-                + 'Extraction "model.ml" %s.\n' % " ".join(roots))
-        write_if_changed(os.path.join(COQ, "Extract", "Extract.v"), text)
-        ok, out, _ = coq_build([r.replace(".", "/") + ".vo" for r in reqs])
-        if not ok:
-            raise BuildError("coq build of the model failed:\n" + out[-3000:])
+        allroots = extract_roots()
         stamp = os.path.join(OCAML, "driver")
-        engs = sorted(glob.glob(os.path.join(OCAML, "eng_*.ml")))
-        srcs = [os.path.join(COQ, f) for f in coq_files()] + [os.path.join(COQ, "Extract", "Extract.v"),
-                                                               os.path.join(OCAML, "driver.ml"), os.path.join(OCAML, "main.ml")] + engs
-        newest = max(os.path.getmtime(s) for s in srcs)
+        srcs = [os.path.join(COQ, f) for f in coq_files()] + glob.glob(os.path.join(COQ, "Extract", "roots", "*.txt")) \
+            + [os.path.join(OCAML, x) for x in ("driver.ml", "main.ml", "conv.inc")] + glob.glob(os.path.join(OCAML, "eng_*.ml"))
+        newest = max(os.path.getmtime(x) for x in srcs)
         if os.path.exists(stamp) and os.path.getmtime(stamp) >= newest:
             return
-        sh(["coqc", "-Q", COQ, "Dnp3V", os.path.join(COQ, "Extract", "Extract.v")], cwd=OCAML)
-        sh(["ocamlfind", "ocamlopt", "-w", "-a", "model.mli", "model.ml", "driver.ml"]
-           + [os.path.basename(e) for e in engs] + ["main.ml", "-o", "driver"], cwd=OCAML)
+        sh(["ocamlfind", "ocamlopt", "-w", "-a", "-c", "driver.ml"], cwd=OCAML)
+        good = []
+        conv = open(os.path.join(OCAML, "conv.inc")).read()
+        for eng, (reqs, roots) in sorted(allroots.items()):
+            engfile = os.path.join(OCAML, "eng_%s.ml" % eng)
+            if not os.path.exists(engfile):
+                continue
+            try:
+                ok, out, _ = coq_build([r.replace(".", "/") + ".vo" for r in reqs])
+                if not ok:
+                    raise BuildError("coq build of the model failed:\n" + out[-1500:])
+                text = ("(* GENERATED by tools/driver.py from coq/Extract/roots/%s.txt.  Extraction of an executable\n"
+                        "   model to OCaml.  ExtrOcamlBasic only: bool, option, unit, list, prod, sumbool, sumor are\n"
+                        "   mapped to their OCaml namesakes; numbers stay Coq positive/N/Z/nat. *)\n"
+                        "Require Extraction.\nRequire Import ExtrOcamlBasic.\n" % eng
+                        + "".join("From Dnp3V Require Import %s.\n" % r for r in reqs)
+                        + "Extraction Language OCaml.\n"
+                        + 'Extraction "model_%s.ml" %s.\n' % (eng, " ".join(roots)))
+                vfile = os.path.join(COQ, "Extract", "Extract_%s.v" % eng)
+                write_if_changed(vfile, text)
+                sh(["coqc", "-Q", COQ, "Dnp3V", vfile], cwd=OCAML)
+                sh(["ocamlfind", "ocamlopt", "-w", "-a", "-c", "model_%s.mli" % eng, "model_%s.ml" % eng], cwd=OCAML)
+                body = open(engfile).read()
+                body = re.sub(r"^open Model\s*$", "", body, flags=re.M)
+                gen = "module Model = Model_%s\n%s\n%s" % (eng, conv, body)
+                write_if_changed(os.path.join(OCAML, "gen_eng_%s.ml" % eng), gen)
+                sh(["ocamlfind", "ocamlopt", "-w", "-a", "-c", "gen_eng_%s.ml" % eng], cwd=OCAML)
+                good.append(eng)
+            except BuildError as e:
+                sys.stderr.write("warning: engine %s is left out of the model driver: %s\n" % (eng, str(e)[-800:]))
+        objs = []
+        for eng in good:
+            objs += ["model_%s.cmx" % eng, "gen_eng_%s.cmx" % eng]
+        sh(["ocamlfind", "ocamlopt", "-w", "-a", "driver.cmx"] + objs + ["main.ml", "-o", "driver"], cwd=OCAML)
 
 
 def run_model(script_path, out_path):
